@@ -184,6 +184,27 @@ example : (∀ x ∈ exHist, x.WF) ∧ addrs (treeRun Cfg.clean [⟨[0], 0, none
   · intro _; exact ⟨by decide, by decide⟩
   · intro h; exact absurd h (by decide)
 
+/-- PARTIAL (code as written) over histories, address level: as long as every message is a discovery reply or a partial
+    notification whose entries share one state change (full notifications excluded: their diff is in general mixed),
+    the set of known addresses after the history is the one the announcements demand. -/
+theorem c06_history_partial (h : List Ann) (t : Tree) (a : List Nat) (hu : ∀ x ∈ h, x.Uniform) :
+    decide (a ∈ addrs (treeRun {} t h)) = h.foldl (specKnown a) (decide (a ∈ addrs t)) :=
+  c06_history_written h t a hu
+
+/-- non-vacuity: reply, two entities added in one notification, both removed in one notification -/
+def exHistW : List Ann :=
+  [⟨.reply, ⟨[⟨[0], 0, .none, none⟩, ⟨[2], 1, .none, none⟩], []⟩⟩,
+   ⟨.part, ⟨[⟨[1], 1, .added, none⟩, ⟨[1, 1], 2, .added, none⟩], []⟩⟩,
+   ⟨.part, ⟨[⟨[1], 1, .removed, none⟩, ⟨[2], 1, .removed, none⟩], []⟩⟩]
+example : addrs (treeRun {} [⟨[0], 0, none, []⟩] exHistW) = [[0], [1, 1]] := by decide
+example : ∀ x ∈ exHistW, x.Uniform := by
+  intro x hx
+  simp only [exHistW, List.mem_cons, List.not_mem_nil, or_false] at hx
+  rcases hx with rfl | rfl | rfl
+  · exact ⟨by decide, fun h => absurd h (by decide)⟩
+  · exact ⟨by decide, fun _ => ⟨by decide, Or.inl (by decide)⟩⟩
+  · exact ⟨by decide, fun _ => ⟨by decide, Or.inr (by decide)⟩⟩
+
 /-- All members, all histories (no well-formedness needed): no entity address is ever listed twice — the entity list
     is a finite map, so the per-address statements above describe the whole tree. -/
 theorem c06_history_nodup (c : Cfg) (h : List Ann) (t : Tree) (hn : (addrs t).Nodup) : (addrs (treeRun c t h)).Nodup :=
